@@ -389,7 +389,7 @@ func c18Extremes(c *Ctx, idx int) {
 func init() {
 	Register(&Property{
 		ID:            "C18",
-		Rule:          "seeded (e1, document) pairs with e1 weighted towards functions and operators that construct values (length, find_*, arithmetic, keys, items, zip, group_by, split, to_array, map, sum, avg, literals): the result r1 is walked (only nil/bool/string/[]any/map[string]any/supported numeric kinds, no typed nils, no non-finite numbers), serialised with encoding/json and decoded again (structural view and JSON view must agree), and then re-queried with 6 of 59 inspecting expressions e2 (types, equality, sorting, indexing, arithmetic, string functions; none mentions $ or outer variables): Search(e2, r1) and Search(e2, JSON round trip of r1) must equal Search(\"(e1) | e2\", document); extremes stream: 23 arithmetic forms over operands near the ends of float64, float32, decimal128 and json.Number must return an error or finite, serialisable numbers; non-trivial = at least one e2 yields a non-null value; distinct by (e1, document); literal-results stream: JSON literals in random legal layouts (white space inside the backticks, escapes, exponent spellings) alone and inside multi-selects / pipes / function calls: the result passes the domain walk, serialises, and re-queries like its JSON round trip; deep stream: documents nested 10 .. 49990 levels deep (arrays, objects, alternating), with e1 adding levels: the result re-queries like the piped form; big-shared stream: e1 hands on arrays of 32-70 elements while searching them, e2 searches them again with needles equal in value but not in spelling or sign (zeros of both signs); requery-aliasing stream: r1 = Search(e1, d) for 3 e1, every directed copy-free ordering form as e2: Search(e2, r1) asked twice must both times equal Search('(e1) | (e2)', pristine copy); heavy stream: two stages of 35-40 million node visits each, in one pipe and in two searches; many-elements stream: 6 pairs of stages over 70000 records / groups, one search against two and against the model",
+		Rule:          "seeded (e1, document) pairs with e1 weighted towards functions and operators that construct values (length, find_*, arithmetic, keys, items, zip, group_by, split, to_array, map, sum, avg, literals): the result r1 is walked (only nil/bool/string/[]any/map[string]any/supported numeric kinds, no typed nils, no non-finite numbers), serialised with encoding/json and decoded again (structural view and JSON view must agree), and then re-queried with 6 of 59 inspecting expressions e2 (types, equality, sorting, indexing, arithmetic, string functions; none mentions $ or outer variables): Search(e2, r1) and Search(e2, JSON round trip of r1) must equal Search(\"(e1) | e2\", document); extremes stream: 23 arithmetic forms over operands near the ends of float64, float32, decimal128 and json.Number must return an error or finite, serialisable numbers; non-trivial = at least one e2 yields a non-null value; distinct by (e1, document); literal-results stream: JSON literals in random legal layouts (white space inside the backticks, escapes, exponent spellings) alone and inside multi-selects / pipes / function calls: the result passes the domain walk, serialises, and re-queries like its JSON round trip; deep stream: documents nested 10 .. 49990 levels deep (arrays, objects, alternating), with e1 adding levels: the result re-queries like the piped form; big-shared stream: e1 hands on arrays of 32-70 elements while searching them, e2 searches them again with needles equal in value but not in spelling or sign (zeros of both signs); requery-aliasing stream: r1 = Search(e1, d) for 3 e1, every directed copy-free ordering form as e2: Search(e2, r1) asked twice must both times equal Search('(e1) | (e2)', pristine copy); heavy stream: two stages of 35-40 million node visits each, in one pipe and in two searches; many-elements stream: 6 pairs of stages over 70000 records / groups, one search against two and against the model; number-conversions stream: every string of up to 4 (thorough 5) symbols over '0 1 9 - + . e E space' and ~280 near-numbers (leading zeros of every length, other radices, digit separators, digits of other scripts, white space around, words) through 10 forms of to_number: the result passes the domain walk (a json.Number spells a JSON number), serialises, agrees with the model and re-queries like the piped form under 10 e2",
 		MinNontrivial: 2000,
 		Streams: []Stream{
 			{Name: "requery", N: func(c *Ctx) int { return tierN(c, 20000, 3000000) }, Run: c18Run},
@@ -400,6 +400,7 @@ func init() {
 			{Name: "many-elements", N: func(c *Ctx) int { return 6 }, Run: manyRequery, Exhaustive: true},
 			{Name: "deep", N: c18DeepN, Run: c18Deep, Exhaustive: true},
 			{Name: "literal-results", N: func(c *Ctx) int { return tierN(c, 4000, 200000) }, Run: c18Literals},
+			{Name: "number-conversions", N: c18NumN, Run: c18Num, Exhaustive: true},
 			{Name: "null-elements", N: func(c *Ctx) int { return tierN(c, 3000, 60000) }, Run: c18Nulls},
 		},
 	})
